@@ -328,6 +328,9 @@ func (w *tmplWalk) rangeOver(coll tv) tv {
 		w.in.record(coll.p.class, 'R', w.locks, w.pos)
 		return w.elemOf(coll.p.class, et)
 	}
+	if coll.p.kind == pFreshColl {
+		return tv{t: et, p: prov{pStructVal, coll.p.class}}
+	}
 	return w.byType(et)
 }
 
@@ -361,6 +364,9 @@ func (w *tmplWalk) field(v tv, name string) tv {
 		if v.p.kind == pVal {
 			w.in.record(v.p.class, 'R', w.locks, w.pos)
 			return w.elemOf(v.p.class, mp.Elem())
+		}
+		if v.p.kind == pFreshColl {
+			return tv{t: mp.Elem(), p: prov{pStructVal, v.p.class}}
 		}
 		return w.byType(mp.Elem())
 	}
